@@ -121,7 +121,7 @@ func scenarioBinary(t *traceWriter, rng *rand.Rand) {
 		return resp.StatusCode, b
 	}
 	waitAPI := func() bool {
-		for i := 0; i < 100; i++ {
+		for i := 0; i < 150; i++ {
 			if st, _ := get("/witness/v0/logs"); st == 200 {
 				return true
 			}
@@ -155,7 +155,23 @@ func scenarioBinary(t *traceWriter, rng *rand.Rand) {
 			return nil, nil, "the witness never connected to the bastion"
 		}
 	}
-	p := start()
+	// a free port may be taken by someone else between choosing it and the binary binding it: try again with another
+	startUp := func() *binProc {
+		var p *binProc
+		for attempt := 0; attempt < 4; attempt++ {
+			if attempt > 0 {
+				_ = p.cmd.Process.Kill()
+				_, _ = p.cmd.Process.Wait()
+				api = freePort()
+			}
+			p = start()
+			if waitAPI() {
+				return p
+			}
+		}
+		return p
+	}
+	p := startUp()
 	defer func() { _ = p.cmd.Process.Kill(); _, _ = p.cmd.Process.Wait() }()
 	if !waitAPI() {
 		t.line("BIN phase=start ok=0 msg=%s", hx([]byte("the HTTP API did not come up: "+lastLines(p.out.String(), 3))))
@@ -219,7 +235,7 @@ func scenarioBinary(t *traceWriter, rng *rand.Rand) {
 	_ = p.cmd.Process.Signal(syscall.SIGKILL)
 	_, _ = p.cmd.Process.Wait()
 	conn.Close()
-	p2 := start()
+	p2 := startUp()
 	defer func() { _ = p2.cmd.Process.Kill(); _, _ = p2.cmd.Process.Wait() }()
 	if !waitAPI() {
 		t.line("BIN phase=restart ok=0 msg=%s", hx([]byte("the HTTP API did not come up after the restart: "+lastLines(p2.out.String(), 3))))
